@@ -346,6 +346,7 @@ var finalKinds = []string{
 	"delete-tagged", "delete-digest-only", "delete-raw", "delete-missing",
 	"saveindex", "reopen",
 	"push-sha512", "push-manifest-sha512", "delete-sha512",
+	"delete-after-variant-tag", "delete-variant", "tag-variant",
 }
 
 // realize extends the history so that the situation exists and returns the final op.
@@ -433,6 +434,21 @@ func realize(r *common.Rand, kind string, s *sim, hist *[]ck.Op) ck.Op {
 	case "push-manifest-sha512":
 		ensure(1002, false)
 		return ck.Op{Kind: "push", Blob: 1002}
+	case "delete-after-variant-tag":
+		// tagged with a digest+size-only descriptor, deleted with the full one
+		ensure(man, true)
+		do(ck.Op{Kind: "tag", Blob: man, Ref: 6, Variant: true})
+		return ck.Op{Kind: "delete", Blob: man}
+	case "delete-variant":
+		ensure(man, true)
+		do(ck.Op{Kind: "tag", Blob: man, Ref: 6})
+		return ck.Op{Kind: "delete", Blob: man, Variant: true}
+	case "tag-variant":
+		ensure(man, true)
+		if r.Bool() {
+			do(ck.Op{Kind: "tag", Blob: man, Ref: 6})
+		}
+		return ck.Op{Kind: "tag", Blob: man, Ref: 6, Variant: true}
 	case "delete-sha512":
 		ensure(1002, true)
 		do(ck.Op{Kind: "tag", Blob: 1002, Ref: 5})
